@@ -30,7 +30,7 @@ func init() { core.Register(prop{}) }
 func (prop) ID() string    { return "C14" }
 func (prop) Level() string { return "exploration" }
 func (prop) Rule() string {
-	return "scenario = 1..4 simultaneous client connections to a fresh raw listener (verif constructor, synchronous injection into the real handleTCP): client ISN from {0,1,2^31-1,2^31,2^32-2,2^32-1} or seeded, source/destination ports incl. decoded ones and swapped port pairs, payload 0..4000 bytes in 1..8 in-order segments (<=1460 bytes, odd and even lengths, PSH on a chosen segment), FIN; all interleavings of 2 connections x 5 frames (252) and seeded interleavings beyond; a seeded subset parks the connection handler at the yield point between its buffer check and its wait while the pushed data is injected. Oracle: RFC 793 shadow model of the peer's expectations over the frames drained from the transmit ring (decoded and checksum-verified by an independent codec) and the connection's event. Non-trivial = the SYN was answered; distinct by scenario parameters. Also: per peer address, IPv4 identification values at which the reply header's checksum needs a second carry fold or crosses a carry boundary (derived from the SYN-ACK, set through the hook VerifSetIPID); and a reconnect from the same address and port after a connection has been carried to its end. Every fifth seeded scenario delivers its frames padded to the Ethernet minimum of 60 bytes, every tenth with a four-byte trailer as well."
+	return "scenario = 1..4 simultaneous client connections to a fresh raw listener (verif constructor, synchronous injection into the real handleTCP): client ISN from {0,1,2^31-1,2^31,2^32-2,2^32-1} or seeded, source/destination ports incl. decoded ones and swapped port pairs, payload 0..4000 bytes in 1..8 in-order segments (<=1460 bytes, odd and even lengths, PSH on a chosen segment), FIN; all interleavings of 2 connections x 5 frames (252) and seeded interleavings beyond; a seeded subset parks the connection handler at the yield point between its buffer check and its wait while the pushed data is injected. Oracle: RFC 793 shadow model of the peer's expectations over the frames drained from the transmit ring (decoded and checksum-verified by an independent codec) and the connection's event. Non-trivial = the SYN was answered; distinct by scenario parameters. Also: per peer address, IPv4 identification values at which the reply header's checksum needs a second carry fold or crosses a carry boundary (derived from the SYN-ACK, set through the hook VerifSetIPID); and a reconnect from the same address and port after a connection has been carried to its end. Every fifth seeded scenario delivers its frames padded to the Ethernet minimum of 60 bytes, every tenth with a four-byte trailer as well. One seeded connection in seven puts its FIN on the last data segment."
 }
 func (prop) Assumptions() []string {
 	return []string{"frames are injected through the verif accessor that runs the receive loop's parse-and-dispatch in the caller's goroutine; emitted frames are read from the transmit ring instead of the wire", "the server's initial sequence number is drawn by the implementation and learned from its SYN-ACK (its boundary values are not steerable)", "segments are at most 1460 bytes and in order"}
@@ -47,6 +47,8 @@ type conn struct {
 	Psh   int      `json:"psh"`  // index of the segment carrying PSH (-1: none)
 	Fin   bool     `json:"fin"`
 	HTTP  bool     `json:"http"`
+	// FinData: the client's FIN travels on its last data segment instead of on a segment of its own
+	FinData bool `json:"fin_on_last_data_segment,omitempty"`
 }
 
 type scenario struct {
@@ -70,7 +72,7 @@ func (sc scenario) peer(i int) net.IP {
 
 func (c conn) nframes() int {
 	n := 2 + len(c.Segs)
-	if c.Fin {
+	if c.Fin && !(c.FinData && len(c.Segs) > 0) {
 		n++
 	}
 	return n
@@ -121,6 +123,9 @@ func mkConn(r *core.Rng, i int) conn {
 	}
 	c.Fin = true
 	c.HTTP = c.Dport == 80 || c.Dport == 9200
+	if len(c.Segs) > 0 && r.Chance(1, 7) {
+		c.FinData = true
+	}
 	return c
 }
 
@@ -417,6 +422,9 @@ func runScenario(k int, sc scenario) scnObs {
 			t.Seq, t.Ack, t.Flags = c.ISN+1+uint32(s.sent), s.ack, fr.ACK
 			if j == c.Psh {
 				t.Flags |= fr.PSH
+			}
+			if c.Fin && c.FinData && j == len(c.Segs)-1 {
+				t.Flags |= fr.FIN
 			}
 			s.sent += len(data)
 		default:
@@ -739,10 +747,20 @@ func (prop) Judge(b core.Batch, recs []core.Rec, exits []core.Exit) []core.Resul
 				j := s.next - 2
 				s.sent += c.Segs[j]
 				want := c.ISN + 1 + uint32(s.sent)
+				finHere := c.Fin && c.FinData && j == len(c.Segs)-1
+				if finHere {
+					s.finSent = true
+				}
 				exact := false
 				for _, d := range mine {
 					if d.Flags&fr.ACK != 0 && d.Ack == want {
 						exact = true
+					}
+					if finHere && d.Flags&fr.ACK != 0 && d.Ack == want+1 {
+						exact, s.finAnswered = true, true // data and FIN acknowledged at once
+					}
+					if finHere && d.Ack == want+1 {
+						continue
 					}
 					if d.Flags&fr.ACK != 0 && d.Flags&(fr.FIN|fr.SYN|fr.RST) == 0 && len(d.Payload) == 0 && d.Ack != want {
 						fail("ack-number|"+isnClass(c.ISN), fmt.Sprintf("after %d bytes (ISN %d) the listener acknowledged %d, want %d", s.sent, c.ISN, d.Ack, want))
